@@ -121,8 +121,11 @@ impl NodeId {
     {
         arena[self].stamp != self.stamp
     }
-    #[verifier::external_body]
-    pub fn ancestors<T>(self, arena: &Arena<T>) -> Ancestors<'_, T> {
+    pub fn ancestors<T>(self, arena: &Arena<T>) -> (r: Ancestors<'_, T>)
+        // @props C09 C02
+        ensures
+            r.0.arena == arena && r.0.node == Some(self),
+    {
         Ancestors::new(arena, self)
     }
     #[verifier::external_body]
@@ -209,22 +212,71 @@ impl NodeId {
         self.checked_append(new_child, arena)
             .expect("Preconditions not met: invalid argument");
     }
-    #[verifier::external_body]
     pub fn checked_append<T>(
         self,
         new_child: NodeId,
         arena: &mut Arena<T>,
-    ) -> Result<(), NodeError> {
+    ) -> (r: Result<(), NodeError>)
+        // @props C01 C02 C03 C05 C08 C12
+        requires
+            old(arena).wf(),
+            old(arena).current(self),
+            old(arena).current(new_child),
+        ensures
+            // @ob C01.wf@checked_append C01 C02 C12
+            final(arena).wf(),
+            // @ob C05.append_fails_iff_impossible C05 C12
+            r is Err <==> insert_impossible(old(arena).nodes@, self, new_child),
+            // @ob C05.append_reports_a_reason_that_applies C05
+            r is Err ==> match r->Err_0 {
+                NodeError::AppendSelf => new_child == self,
+                NodeError::Removed => old(arena).at(self).stamp.removed() || old(arena).at(new_child).stamp.removed(),
+                NodeError::AppendAncestor => anc(old(arena).nodes@, new_child.idx(), self.idx()),
+                _ => false,
+            },
+            // @ob C05.append_rejection_is_atomic C05 C12
+            r is Err ==> final(arena).nodes@ == old(arena).nodes@,
+            final(arena).first_free_slot == old(arena).first_free_slot,
+            final(arena).last_free_slot == old(arena).last_free_slot,
+            // @ob C03.append_exact_effect C03 C08
+            r is Ok ==> exists|m: Seq<Node<T>>| #[trigger]
+                detach_post(old(arena).nodes@, m, new_child.idx()) && insert_post(
+                    m,
+                    final(arena).nodes@,
+                    new_child,
+                    Some(self),
+                    m[self.idx()].last_child,
+                    None,
+                ),
+    {
         if new_child == self {
             return Err(NodeError::AppendSelf);
         }
         if arena[self].is_removed() || arena[new_child].is_removed() {
             return Err(NodeError::Removed);
         }
+        let ghost w = choose|w: Ranks| ranked(arena.nodes@, w);
         if {
             let mut __vx_iter1 = self.ancestors(arena);
             let mut __vx_any2 = false;
-            while let Some(ancestor) = __vx_iter1.next() {
+            while let Some(ancestor) = __vx_iter1.next()
+                invariant_except_break
+                    !__vx_any2,
+                invariant
+                    *__vx_iter1.0.arena == *arena,
+                    *arena == *old(arena),
+                    links_ok(arena.nodes@),
+                    ranked(arena.nodes@, w),
+                    arena.live(new_child),
+                    anc_loop_inv(arena.nodes@, w, self.idx(), new_child.idx(), __vx_iter1.0.node, __vx_any2),
+                ensures
+                    __vx_any2 == in_sub(arena.nodes@, w, new_child.idx(), self.idx()),
+                // @ob C02.append_ancestor_walk_terminates C02
+                decreases anc_loop_measure(w, __vx_iter1.0.node),
+            {
+                proof {
+                    lemma_anc_loop_step(arena.nodes@, w, self.idx(), new_child, ancestor);
+                }
                 if new_child == ancestor {
                     __vx_any2 = true;
                     break;
@@ -232,11 +284,35 @@ impl NodeId {
             }
             __vx_any2
         } {
+            proof {
+                lemma_anc_iff(arena.nodes@, w, new_child.idx(), self.idx());
+            }
             return Err(NodeError::AppendAncestor);
         }
+        proof {
+            lemma_anc_iff(arena.nodes@, w, new_child.idx(), self.idx());
+            if new_child.idx() == self.idx() {
+                lemma_id_eq(new_child, self);
+            }
+        }
         new_child.detach(arena);
+        let ghost mid = arena.nodes@;
+        proof {
+            lemma_in_sub_frame(old(arena).nodes@, mid, w, new_child.idx(), self.idx());
+            lemma_gap_at_end(mid, self);
+        }
         insert_with_neighbors(arena, new_child, Some(self), arena[self].last_child, None)
             .expect("Should never fail: `new_child` is not `self` and they are not removed");
+        proof {
+            assert(detach_post(old(arena).nodes@, mid, new_child.idx()) && insert_post(
+                mid,
+                arena.nodes@,
+                new_child,
+                Some(self),
+                mid[self.idx()].last_child,
+                None,
+            ));
+        }
         Ok(())
     }
     #[verifier::external_body]
@@ -1109,14 +1185,44 @@ pub fn connect_neighbors<T>(
     }
     debug_assert_triangle_nodes!(arena, parent, previous, next);
 }
-#[verifier::external_body]
 pub fn insert_with_neighbors<T>(
     arena: &mut Arena<T>,
     new: NodeId,
     parent: Option<NodeId>,
     previous_sibling: Option<NodeId>,
     next_sibling: Option<NodeId>,
-) -> Result<(), ConsistencyError> {
+) -> (res: Result<(), ConsistencyError>)
+    // @props C01 C02 C03 C05 C08 C12
+    requires
+        old(arena).wf(),
+        old(arena).live(new),
+        is_root(old(arena).nodes@, new.idx()),
+        is_gap(old(arena).nodes@, parent, previous_sibling, next_sibling),
+        not_at(new.idx(), parent),
+        not_at(new.idx(), previous_sibling),
+        not_at(new.idx(), next_sibling),
+        parent is Some ==> exists|w: Ranks| ranked(old(arena).nodes@, w) && !in_sub(old(arena).nodes@, w, new.idx(), parent->0.idx()),
+    ensures
+        // @ob C05.insert_with_neighbors_succeeds C05
+        res is Ok,
+        // @ob C01.wf@insert_with_neighbors C01 C02 C12
+        final(arena).wf(),
+        // @ob C03.insert_exact_effect C03 C08
+        insert_post(old(arena).nodes@, final(arena).nodes@, new, parent, previous_sibling, next_sibling),
+        final(arena).first_free_slot == old(arena).first_free_slot,
+        final(arena).last_free_slot == old(arena).last_free_slot,
+{
+    let ghost w0: Ranks = if parent is Some {
+        choose|w: Ranks| ranked(old(arena).nodes@, w) && !in_sub(old(arena).nodes@, w, new.idx(), parent->0.idx())
+    } else {
+        choose|w: Ranks| ranked(old(arena).nodes@, w)
+    };
+    proof {
+        lemma_gap_transplant_pre(old(arena).nodes@, w0, new, parent, previous_sibling, next_sibling);
+        if previous_sibling is Some {
+            assert(previous_sibling != Some(new));
+        }
+    }
     debug_assert_triangle_nodes!(arena, parent, previous_sibling, next_sibling);
     if previous_sibling == Some(new) || next_sibling == Some(new) {
         return Err(ConsistencyError::SiblingsLoop);
@@ -1128,6 +1234,19 @@ pub fn insert_with_neighbors<T>(
         .detach_from_siblings(arena)
         .transplant(arena, parent, previous_sibling, next_sibling)
         .expect("Should never fail: neighbors including parent are not `self`");
+    proof {
+        let c = seq![new.idx()];
+        assert(is_chain(old(arena).nodes@, new.idx(), c));
+        lemma_insert_links(old(arena).nodes@, arena.nodes@, w0, new, parent, previous_sibling, next_sibling);
+        if parent is Some {
+            lemma_shift_subtree(old(arena).nodes@, w0, new.idx(), parent->0.idx());
+            let w1 = choose|w2: Ranks| ranked(old(arena).nodes@, w2) && (w2.depth)(new.idx()) > (w2.depth)(parent->0.idx());
+            lemma_insert_ranks(old(arena).nodes@, arena.nodes@, w1, new, parent, previous_sibling, next_sibling);
+        } else {
+            lemma_insert_ranks(old(arena).nodes@, arena.nodes@, w0, new, parent, previous_sibling, next_sibling);
+        }
+        lemma_relink_wf(*old(arena), *arena);
+    }
     debug_assert_triangle_nodes!(arena, parent, previous_sibling, Some(new));
     debug_assert_triangle_nodes!(arena, parent, Some(new), next_sibling);
     Ok(())
@@ -1177,6 +1296,8 @@ impl SiblingsRange {
             final(arena).last_free_slot == old(arena).last_free_slot,
             // @ob C03.detach_from_siblings_exact_effect C03 C04 C01 C08
             detach_range_post(old(arena).nodes@, final(arena).nodes@, self.first.idx(), self.last.idx()),
+            // @ob C03.detaching_a_detached_root_changes_nothing C03
+            is_root(old(arena).nodes@, self.first.idx()) && self.first == self.last ==> final(arena).nodes@ == old(arena).nodes@,
     {
         proof {
             let w = choose|w: Ranks| ranked(old(arena).nodes@, w);
@@ -1209,6 +1330,9 @@ impl SiblingsRange {
             assert forall|i: int| 0 <= i < o.len() implies mid[i].first_child == o[i].first_child && mid[i].last_child
                 == o[i].last_child && mid[i].parent == o[i].parent && mid[i].stamp == o[i].stamp && mid[i].data == o[i].data by {}
             assert(connect_post(mid, n, parent, prev_of_range, next_of_range));
+            if is_root(o, f) && self.first == self.last {
+                assert(n =~= o);
+            }
         }
         if cfg!(debug_assertions) {
             debug_assert_eq!(arena[self.first].previous_sibling, None);
@@ -1421,8 +1545,14 @@ pub struct Iter<'a, T> {
     pub node: Option<NodeId>,
 }
 impl<'a, T> Iter<'a, T> {
-    #[verifier::external_body]
-    pub fn new(arena: &'a Arena<T>, node: impl Into<Option<NodeId>>) -> Self {
+    pub fn new<VxI0: Into<Option<NodeId>>>(arena: &'a Arena<T>, node: VxI0) -> (r: Self)
+        // @props C09
+        ensures
+            r.arena == arena,
+            <VxI0 as vstd::std_specs::convert::IntoSpec<Option<NodeId>>>::obeys_into_spec() ==> r.node == <VxI0 as vstd::std_specs::convert::IntoSpec<
+                Option<NodeId>,
+            >>::into_spec(node),
+    {
         let node = node.into();
         Self { arena, node }
     }
@@ -1434,12 +1564,21 @@ pub struct DoubleEndedIter<'a, T> {
     pub tail: Option<NodeId>,
 }
 impl<'a, T> DoubleEndedIter<'a, T> {
-    #[verifier::external_body]
-    pub fn new(
+    pub fn new<VxI0: Into<Option<NodeId>>, VxI1: Into<Option<NodeId>>>(
         arena: &'a Arena<T>,
-        head: impl Into<Option<NodeId>>,
-        tail: impl Into<Option<NodeId>>,
-    ) -> Self {
+        head: VxI0,
+        tail: VxI1,
+    ) -> (r: Self)
+        // @props C10
+        ensures
+            r.arena == arena,
+            <VxI0 as vstd::std_specs::convert::IntoSpec<Option<NodeId>>>::obeys_into_spec() ==> r.head == <VxI0 as vstd::std_specs::convert::IntoSpec<
+                Option<NodeId>,
+            >>::into_spec(head),
+            <VxI1 as vstd::std_specs::convert::IntoSpec<Option<NodeId>>>::obeys_into_spec() ==> r.tail == <VxI1 as vstd::std_specs::convert::IntoSpec<
+                Option<NodeId>,
+            >>::into_spec(tail),
+    {
         let head = head.into();
         let tail = tail.into();
         Self { arena, head, tail }
@@ -1448,14 +1587,32 @@ impl<'a, T> DoubleEndedIter<'a, T> {
 #[derive(Clone)]
 pub struct Ancestors<'a, T>(pub Iter<'a, T>);
 impl<'a, T> Ancestors<'a, T> {
-    #[verifier::external_body]
-    pub fn new(arena: &'a Arena<T>, node: NodeId) -> Self {
+    pub fn new(arena: &'a Arena<T>, node: NodeId) -> (r: Self)
+        // @props C09 C02
+        ensures
+            // @ob C09.ancestors_start_at_the_node C09
+            r.0.arena == arena && r.0.node == Some(node),
+    {
+        proof {
+            axiom_into_some(node);
+        }
         Self({ Iter::new(arena, node) })
     }
 }
 impl<'a, T> Ancestors<'a, T> {
-    #[verifier::external_body]
-    pub fn next(&mut self) -> Option<NodeId> {
+    pub fn next(&mut self) -> (r: Option<NodeId>)
+        // @props C09 C02
+        requires
+            old(self).0.node is Some ==> old(self).0.arena.has(old(self).0.node->0),
+        ensures
+            // @ob C09.ancestors_yield_the_cursor_then_its_parent C09 C02
+            r == old(self).0.node,
+            final(self).0.arena == old(self).0.arena,
+            final(self).0.node == (match old(self).0.node {
+                Some(x) => old(self).0.arena.at(x).parent,
+                None => None,
+            }),
+    {
         let node = self.0.node.take()?;
         self.0.node = {
             let node = &self.0.arena[node];
